@@ -48,6 +48,9 @@ CHECKS = {
  "C12": ("exploration", "A", "deterministic simulation: multi-run histories on a simulated clock with a persistent private cache, inode reuse by seam relabelling, earlier run killed inside the cache directory",
          "Seeded histories of length 1..6 (edits x per-step configuration); after every step the cached report body must equal the uncached twin's and the cached run must exit 0; ~20% of histories kill one run at a write/pwrite/fsync/open in the cache directory.",
          "every content change moves mtime(ms) or length; sled runs as real code, its internal threads are not scheduled", "4/C12"),
+ "C13": ("exploration", "A", "deterministic simulation: repeated runs under seeded pool specifications, root permutations, --stdin and seeded per-call delays (steered schedules); hang detection",
+         "Per world a reference run and V variants (thread specs incl. single-thread pools and 64, root permutations, --stdin, delay plans): byte-identical report bodies; 4 configuration variants (hash fn, prefix/suffix sizes, device kind, cache): equal partition; every run must exit within 60 s.",
+         "interleavings steered by delays, not enumerated; the rehash pipeline's schedules are the business of the shuttle engine where it is built", "4/C13"),
 }
 NOT_APPLICABLE = {
  "C16": "pure function of (glob pattern, string): no schedule, clock, fault, stream or history for a simulator to control; needs bounded-exhaustive input enumeration against a reference matcher, which is a different technique (DESIGN section 5)",
